@@ -8,10 +8,10 @@ server RequestStream::send_response, connection::RequestStream::send_trailers; R
   W  the three send sites, polled to completion with the transport answering each await arbitrarily (open_bidi / write:
      pending, ready, error) and THE PEER'S SETTINGS RE-READ AS AN ARBITRARY NEW VALUE AT EVERY POLL (SETTINGS may arrive
      between any two polls): a HEADERS frame is handed to stream::write only if size <= the limit in force in the poll that
-     starts the write; otherwise the call returns HeaderTooBig{actual: size, max: that limit} and writes nothing; a size
+     starts the write; otherwise the call returns a HeaderTooBig error and writes nothing; a size
      within the limit is never refused; no connection error is raised on these paths;
   R  resolve with decoded = Err(size): a 431 response is attempted through send_response (so subject to W), the outcome is
-     HeaderTooBig{actual_size: size, max_size: the server's limit} or send_response's own error - never Ok, never a
+     a header-too-big error or send_response's own error - never Ok, never a
      connection error.
 """
 import re
@@ -392,11 +392,7 @@ def judge_site(ex, finals, name, viols, wit):
             if m is not None:
                 viols.append({"key": f"c10.send.{name}.section_within_limit_refused", "what": f"{name} refuses a section that is within the peer's current limit",
                               "model": {"size": m.eval(size, True).as_long(), "limit": m.eval(lim, True).as_long()}})
-            a = E.get_field(err, ("HeaderTooBig", 0))
-            mx = E.get_field(err, ("HeaderTooBig", 1))
-            q += 1
-            if a is None or mx is None or ex.feasible(s, z3.Or(a != size, mx != lim)):
-                viols.append({"key": f"c10.send.{name}.header_too_big_reports_other_numbers", "what": "HeaderTooBig does not carry the section's size and the limit it was compared with", "model": {}})
+            # (the numbers carried by HeaderTooBig are not part of the property: not judged)
             if any(e[0] == "connection_error" for e in s.effects):
                 viols.append({"key": f"c10.send.{name}.connection_error_on_oversize", "what": "an oversized section raises a connection error", "model": {}})
         else:
@@ -508,12 +504,9 @@ def part_431(L, tier, log):
                               "model": {} if m is None else {"answer_size": m.eval(rsize, True).as_long(), "client_limit": m.eval(lim_now, True).as_long()}})
             wp = [e for e in s.effects if e[0] == "write_poll"]
             if wp and wp[-1][1] == "ok":
-                a = E.get_field(err, ("HeaderTooBig", 0)) if kind == "HeaderTooBig" else None
-                m_ = E.get_field(err, ("HeaderTooBig", 1)) if kind == "HeaderTooBig" else None
-                q += 1
-                if kind != "HeaderTooBig" or ex.feasible(s, z3.Or(a != size, m_ != mx)):
+                if kind != "HeaderTooBig":
                     viols.append({"key": "c10.recv.resolve_oversize.wrong_outcome",
-                                  "what": "after the 431 was sent the call does not end in HeaderTooBig{actual_size: decoded size, max_size: configured limit}", "model": {"kind": kind}})
+                                  "what": "after the 431 was sent the call does not end in a header-too-big outcome", "model": {"kind": kind}})
                 else:
                     wit["R.431_sent_then_header_too_big"] = True
             else:
